@@ -84,6 +84,22 @@ Fixpoint derive_chain (a : acc) (ds : list dop) : option acc :=
    mark_dirty(e_moff, e_mlen) was called on the region's bitmap *)
 Record eff := { e_r : nat; e_woff : N; e_wn : N; e_moff : N; e_mlen : N }.
 Record outcome1 := { o_ok : bool; o_count : N; o_effs : list eff }.
+
+(* ORDER inside one effect.  At every site the bytes are stored FIRST and mark_dirty is called
+   AFTERWARDS: volatile_memory.rs:613 and :1242 (copy_to_volatile_slice: copy loop / copy_slice, then
+   mark), :836 (Bytes::store: r.store(..) then mark), :957 (VolatileRef::store: write_unaligned then
+   mark), :1297 (VolatileArrayRef::copy_from: element loop then mark), :1443
+   (copy_slice_impl::copy_to_volatile_slice: copy_slice then mark), io.rs:193/:198 (read(2) has
+   returned, then mark).  The order matters to a concurrent consumer of the dirty log (reset the bits,
+   then copy the pages): a mark placed before the store can be consumed before the bytes change,
+   leaving the change unreported (Proofs/C05Order.v).  An effect therefore unfolds into two
+   micro-events, in this order; MReset / MResetAll are the consumer's events. *)
+Inductive mev :=
+| MWrite (e : eff)                  (* bytes [e_woff, e_woff+e_wn) of region e_r are stored *)
+| MMark (e : eff)                   (* mark_dirty(e_moff, e_mlen) on region e_r's bitmap *)
+| MReset (ri : nat) (off len : N)   (* AtomicBitmap::reset_addr_range *)
+| MResetAll (ri : nat).             (* AtomicBitmap::reset / get_and_reset *)
+Definition micro (e : eff) : list mev := [MWrite e; MMark e].
 Definition fail : outcome1 := {| o_ok := false; o_count := 0; o_effs := [] |}.
 Definition done (n : N) (effs : list eff) : outcome1 := {| o_ok := true; o_count := n; o_effs := effs |}.
 
@@ -306,6 +322,16 @@ Definition set_dirty (r : region) (d : list bool) : region :=
 Definition apply_eff (rs : list region) (e : eff) : list region :=
   upd_nth rs (e_r e) (fun r => if r_tracked r then set_dirty r (mark (r_ps r) (r_dirty r) (e_moff e) (e_mlen e) true) else r).
 Definition apply_effs (rs : list region) (es : list eff) : list region := fold_left apply_eff es rs.
+
+(* the state after a trace of micro-events (storing bytes does not touch a bitmap) *)
+Definition apply_mev (rs : list region) (ev : mev) : list region :=
+  match ev with
+  | MWrite _ => rs
+  | MMark e => apply_eff rs e
+  | MReset ri off len => upd_nth rs ri (fun r => set_dirty r (mark (r_ps r) (r_dirty r) off len false))
+  | MResetAll ri => upd_nth rs ri (fun r => set_dirty r (map (fun _ => false) (r_dirty r)))
+  end.
+Definition apply_mevs (rs : list region) (tr : list mev) : list region := fold_left apply_mev tr rs.
 
 (* history steps *)
 Inductive step :=
